@@ -114,12 +114,12 @@ theorem Cell.type_ne_zero (c : Cell) : c.type ≠ 0 := by
 
 /-- the scanner's element loop reads the rest of an array text -/
 theorem scanArrayElems_tail (fuel : Nat) {cs : List Cell} {tail : Bytes} (h : ElemTail cs tail) (rest : Bytes) :
-    ∀ (lf : Nat) (prev : List Cell) (i : Nat) (acc : List Cell) (ty : UInt8), cs.length + 1 ≤ lf →
-      scanArrayElems (scanArgVal (fuel + 1)) lf (skipSpace (tail ++ 93 :: rest)) prev i acc ty =
+    ∀ (lf : Nat) (prev : List Cell) (i : Nat) (pok : Bool) (acc : List Cell) (ty : UInt8), cs.length + 1 ≤ lf →
+      scanArrayElems (scanArgVal (fuel + 1)) lf (skipSpace (tail ++ 93 :: rest)) prev i pok acc ty =
         .ok (93 :: rest, acc ++ cs, lastTy cs ty) := by
   induction h with
   | nil =>
-    intro lf prev i acc ty hlf
+    intro lf prev i pok acc ty hlf
     cases lf with
     | zero => omega
     | succ f =>
@@ -127,13 +127,13 @@ theorem scanArrayElems_tail (fuel : Nat) {cs : List Cell} {tail : Bytes} (h : El
       unfold scanArrayElems
       simp [pure, Except.pure, lastTy]
   | cons t c sep cs text ht hsc hsep hrest ih =>
-    intro lf prev i acc ty hlf
+    intro lf prev i pok acc ty hlf
     cases lf with
     | zero => omega
     | succ f =>
       obtain ⟨hne, _, h0, _, _, _, _, h93⟩ := ht.start
       have hS := hrest.sep rest
-      have hscan := ht.scan (text ++ 93 :: rest) fuel prev i hS
+      have hscan := ht.scan (text ++ 93 :: rest) fuel prev (if pok then acc.length else 0) hS
       have hhd : hd (t ++ (text ++ 93 :: rest)) = hd t := hd_append_of_ne_nil _ _ hne
       have hlen : t.length ≠ 0 := by have := List.length_pos_iff.mpr hne; omega
       have hadv : advance (t ++ (text ++ 93 :: rest)) t.length = .ok (text ++ 93 :: rest) := by
@@ -142,11 +142,11 @@ theorem scanArrayElems_tail (fuel : Nat) {cs : List Cell} {tail : Bytes} (h : El
       unfold scanArrayElems
       simp only [hhd, h0, h93, ne_eq, not_false_eq_true, and_self, ↓reduceIte, hscan, bind, Except.bind, hlen,
         hadv, deref, nextArgOffset_scalar _ c [] hsc, List.length_singleton, not_true_eq_false,
-        pure, Except.pure]
+        pure, Except.pure, canPrecedeRange_scalar c [] hsc]
       simp only [List.length_cons] at hlf
       split
       · simp [ArgVal.Cell.isScalar] at hsc
-      · rw [ih f _ (i + 1) (acc ++ [c]) c.type (by omega)]
+      · rw [ih f _ (i + 1) true (acc ++ [c]) c.type (by omega)]
         simp [lastTy_cons]
 
 
@@ -246,7 +246,7 @@ theorem argOK_arrayText {es : List Cell} {body : Bytes} (hb : ArrBody es body)
     decide
   · intro rest fuel prev ab hS
     have hloop := scanArrayElems_tail fuel htail rest ((91 :: (body ++ 93 :: rest)).length + 1)
-      (Cell.arr 32 0 :: prev) 0 [] 32 (by simp only [List.length_cons, List.length_append]; omega)
+      (Cell.arr 32 0 :: prev) 0 true [] 32 (by simp only [List.length_cons, List.length_append]; omega)
     rw [hsp] at hloop
     have hval : scanValue (scanArgVal (fuel + 1)) (91 :: (body ++ 93 :: rest)) prev =
         .ok ⟨rest, Cell.arr (lastTy es 32) es.length :: es, true⟩ := by
